@@ -305,10 +305,21 @@ def check_c14(tier):
                         explanation="states = distinct operation prefixes over {FakeAsync(function, checked|unchecked flavour), DropInjector, PanicHere}; after every operation every function of the family is awaited twice (different arguments; directly, nested in an outer async fn, and on a second thread) and judged: ready on the first poll with a freshly evaluated value and the original body not run when faked, original value / poll count / body run when not; transitions = operations executed")
 
 
+def c07_arm_matrix(tier, mi):
+    """The same question across the macro's arm matrix: every `times` arm of the safe / unsafe fn kinds is
+    evaluated by two or three lifetimes from one source line (E4 programs); later lifetimes must behave like first ones."""
+    import e4
+    viols, cov = e4.c08(tier, mi)
+    mine = [dict(v, args=["c08"]) for v in viols if "later-lifetime" in v["key"]]
+    return mine, {"states": 0, "arm_matrix_runs": cov["runs"], "arm_matrix_arms": cov["distinct_arms"]}, [
+        "arm matrix: generated programs (one per fake! arm) re-evaluate the arm's source line in a loop of lifetimes; compiled against the unmodified crate"]
+
+
 def check_c07(tier):
     runs = times_runs(tier, [0, 1, 2], 8, 10) + times_runs(tier, [1], 6, 8, threads=True)
     return times_family("C07", tier, runs,
-                        ["a mismatch with the reference model is attributed to C07 when it occurs in a lifetime that follows earlier use of the same fake! source line, to C06 when it occurs in the first lifetime of a fresh process"])
+                        ["a mismatch with the reference model is attributed to C07 when it occurs in a lifetime that follows earlier use of the same fake! source line, to C06 when it occurs in the first lifetime of a fresh process"],
+                        extra=c07_arm_matrix)
 
 
 def c06_concurrent(tier, mi):
@@ -371,7 +382,7 @@ def c05_extra(tier, mi):
 
 
 def check_c05(tier):
-    runs = times_runs(tier, [0, 1, 2], 7, 9)
+    runs = [r + ["--postmortem"] for r in times_runs(tier, [0, 1, 2], 7, 9)]
     return times_family("C05", tier, runs, [], extra=c05_extra)
 
 
@@ -533,10 +544,10 @@ def check_c01(tier):
 
 
 def check_c13(tier):
-    return e1_family("C13", tier, ["c01", "probe"], ("C13",), False,
+    return e1_family("C13", tier, ["c01", "probe", "c15"], ("C13",), False,
                      ["trampoline:long", "trampoline:rel32", "entry:rel32"],
                      E1_ASSUME + ["ymm upper halves are probed when the host has AVX (it does); x87/MXCSR state is not probed",
-                                  "AArch64 / AArch32 register discipline of the emitted sequences is judged by C15 / C16"],
+                                  "AArch64: the emitted sequences of the C15 domain are judged on the A64 abstract machine (writes outside x9-x17 break argument / result-pointer / callee-saved registers); AArch32 register discipline is judged by C16"],
                      "states = every placement of the C01 domain: the instruction sequence between caller and fake is run on the x86-64 abstract machine with a fully symbolic register file (write set, stack delta, reads of caller registers), so the verdict holds for all register and stack contents; plus host probes: an assembly caller loads 6 integer and 8 vector argument registers, 4 stack slots and the callee-saved set with walking patterns (6 rounds), an assembly fake records them, for the rel32 and the long trampoline form and a far position-independent fake")
 
 
